@@ -1,4 +1,5 @@
 import PromProofs.QuantileList
+import PromProofs.QuantileFraction
 /-
   C32 — Histogram query functions agree with the histograms they describe.
 
@@ -124,6 +125,61 @@ theorem bucketQuantile_negative_counts_witness :
     (bqTail noTol (.fin (1/2)) negCounts).quantile = .fin 3 ∧
     (bqTail noTol (.fin 1) negCounts).quantile = .fin 2 := by
   constructor <;> decide +kernel
+
+/-! ## Native histograms -/
+
+/-- `histogram_fraction(-Inf, +Inf, h) = 1` for a non-empty histogram (at least one bucket, finite Count > 0,
+    Sum not NaN, no NaN/+Inf lower bucket bound) — for every bucket content and every in-bucket
+    interpolant `fb` (the exp2/log2 interpolation is abstracted as `fb`). -/
+theorem fraction_total_one (fb : XR → XR → XR → XR) (h : NHist XR) (N : Rat) (hN : h.count = .fin N) (hpos : 0 < N)
+    (hsum : h.sum ≠ .nan) (hne : h.fwd ≠ []) (hb : ∀ x ∈ h.fwd, LowerOk x) :
+    histogramFraction fb .ninf .pinf h = .fin 1 :=
+  fraction_total_one_aux fb h N hN hpos hsum hne hb
+
+example : ∃ h : NHist XR, h.count = .fin 3 ∧ h.sum ≠ .nan ∧ h.fwd ≠ [] ∧ ∀ x ∈ h.fwd, LowerOk x :=
+  ⟨{ custom := false, count := .fin 3, sum := .fin 7, nNeg := 1, nPos := 1,
+     fwd := [⟨.fin (-2), .fin (-1), .fin 1⟩, ⟨.fin 1, .fin 2, .fin 2⟩], rev := [⟨.fin 1, .fin 2, .fin 2⟩, ⟨.fin (-2), .fin (-1), .fin 1⟩] },
+   rfl, by simp, by simp, by intro x hx; simp at hx; rcases hx with rfl | rfl <;> simp [LowerOk]⟩
+
+/-- a monotone in-bucket interpolant with values in `[lower, upper]` (abstraction of the exp2/log2 formula) -/
+def GoodInterp (interp : XR → XR → XR → XR) : Prop :=
+  ∀ l u f1 f2 : Rat, l ≤ u → 0 ≤ f1 → f1 ≤ f2 → f2 ≤ 1 →
+    ∃ v1 v2, interp (.fin l) (.fin u) (.fin f1) = .fin v1 ∧ interp (.fin l) (.fin u) (.fin f2) = .fin v2 ∧ l ≤ v1 ∧ v1 ≤ v2 ∧ v2 ≤ u
+
+def evalHQ (interp : XR → XR → XR → XR) : HQRes XR → XR
+  | .val v => v
+  | .expo l u f => interp l u f
+
+/-- consistent native histogram: finite counts ≥ 0 that add up to Count > 0, ascending disjoint buckets,
+    the reverse iterator is the reverse of the forward one, Sum is not NaN -/
+def ConsistentHist (h : NHist XR) : Prop :=
+  h.rev = h.fwd.reverse ∧ h.sum ≠ .nan ∧
+  (∃ N, h.count = .fin N ∧ 0 < N ∧ sumCounts (.fin 0) h.fwd = .fin N) ∧
+  (∀ b ∈ h.fwd, ∃ l u c, b.lower = .fin l ∧ b.upper = .fin u ∧ b.count = .fin c ∧ l ≤ u ∧ 0 ≤ c) ∧
+  h.fwd.Pairwise (fun a b => XR.le a.upper b.lower = true)
+
+/-- NOT PROVED YET (covered by the judge on Go's outputs only): native quantiles are monotone in q. -/
+def histQuantile_mono_full : Prop :=
+  ∀ (interp : XR → XR → XR → XR) (h : NHist XR), GoodInterp interp → ConsistentHist h →
+    ∀ q1 q2 : Rat, 0 ≤ q1 → q1 ≤ q2 → q2 ≤ 1 →
+      XR.leOrNaN (evalHQ interp (histogramQuantile (.fin q1) h)) (evalHQ interp (histogramQuantile (.fin q2) h))
+
+/-- NOT PROVED YET: the native quantile lies within the (adjusted) bounds of a bucket of the histogram. -/
+def histQuantile_in_rank_bucket_full : Prop :=
+  ∀ (interp : XR → XR → XR → XR) (h : NHist XR), GoodInterp interp → ConsistentHist h → h.custom = false →
+    ∀ q : Rat, 0 ≤ q → q ≤ 1 →
+      ∃ b ∈ h.fwd, ∃ v, evalHQ interp (histogramQuantile (.fin q) h) = .fin v ∧
+        XR.le (if XR.lt b.lower (.fin 0) && XR.lt (.fin 0) b.upper && h.nNeg = 0 && h.nPos > 0 then .fin 0 else b.lower) (.fin v) = true ∧
+        XR.le (.fin v) (if XR.lt b.lower (.fin 0) && XR.lt (.fin 0) b.upper && h.nPos = 0 && h.nNeg > 0 then .fin 0 else b.upper) = true
+
+/-- NOT PROVED YET: fraction ∈ [0,1] and monotone under interval nesting (`fb` = in-bucket fraction in [0,1], monotone). -/
+def fraction_in_unit_and_mono_full : Prop :=
+  ∀ (fb : XR → XR → XR → XR) (h : NHist XR), ConsistentHist h →
+    (∀ l u v1 v2 : Rat, l < v1 → v1 ≤ v2 → v2 < u → ∃ f1 f2, fb (.fin l) (.fin u) (.fin v1) = .fin f1 ∧
+        fb (.fin l) (.fin u) (.fin v2) = .fin f2 ∧ 0 ≤ f1 ∧ f1 ≤ f2 ∧ f2 ≤ 1) →
+    ∀ lo1 up1 lo2 up2 : Rat, lo2 ≤ lo1 → lo1 ≤ up1 → up1 ≤ up2 →
+      ∃ f1 f2, histogramFraction fb (.fin lo1) (.fin up1) h = .fin f1 ∧ histogramFraction fb (.fin lo2) (.fin up2) h = .fin f2 ∧
+        0 ≤ f1 ∧ f1 ≤ f2 ∧ f2 ≤ 1
 
 /-! ## histogram_count / histogram_sum / histogram_avg -/
 
